@@ -78,6 +78,7 @@ FIXED = {
     "diagonalize_measurements silently rotated wires": ("C20", "diagonalize_measurements: expval(0.59*Y(0) - 0.37*Hermitian(A, 0)) and [expval(X(0)), var(Projector([0], 0))] were returned with the Hermitian/Projector untouched on a rotated wire (wrong values, no error)"),
     "clifford_t_decomposition maps PhaseShift(3 pi/4)": ("C15", "clifford_t_decomposition mapped PhaseShift(3pi/4) / PhaseShift(5pi/4) to a bare T-adjoint / T (error 2.0)"),
     "IntegerComparator(geq=False) matrix": ("C10", "IntegerComparator(value > 2**n, geq=False).matrix() raised ValueError"),
+    "controlled_resource_rep kept a raw PowOperation/AdjointOperation base class": ("C11", "ctrl_single_work_wire on Controlled(CPhaseShift00(0.3,[0,1])**3, control_wires=['a','b','c'], control_values=[1,0,0], work_wires=['w']) called with op.resource_params (as assert_valid does) declared Controlled(base_class=PowOperation) but emits Controlled(base_class=Pow): controlled_resource_rep(**p) != resource_rep(Controlled, **p) although both print identically"),
 }
 
 KNOWN = [
@@ -153,6 +154,11 @@ import glob  # noqa: E402
 for _f in sorted(glob.glob(os.path.join(ROOT, "tools", "kf_extra_*.json"))):
     for _e in json.load(open(_f)):
         EXTRA_KNOWN.append((_e["property"], _e["clause"], _e["match"], _e["what"]))
+
+# fixed entries recorded by triage agents: tools/kf_fixed_*.json = [{"subject": <substring of the fix commit subject>, "property": id, "what": text}]
+for _f in sorted(glob.glob(os.path.join(ROOT, "tools", "kf_fixed_*.json"))):
+    for _e in json.load(open(_f)):
+        FIXED[_e["subject"]] = (_e["property"], _e["what"])
 
 if __name__ == "__main__":
     main()
